@@ -235,6 +235,25 @@ def main(argv=None):
                 failed.append((r['name'], o))
             else:
                 unknown.append((r['name'], o))
+    # undecided obligations with a candidate counterexample: re-run with the candidate pinned (all quantifiers then range
+    # over concrete data); if the same obligation FAILS there, it is a failed obligation with a concrete input
+    still_unknown = []
+    for cname, o in unknown:
+        upgraded = False
+        if o.get('inputs'):
+            pinned = with_timeout(tasks.run_contract_task, ((cname, {'pinned': o['inputs'], 'max_paths': 400, 'budget_s': 80}),), 100)
+            if pinned:
+                for po in pinned['obligations']:
+                    if po['name'] == o['name'] and po['status'] == 'failed':
+                        o2 = dict(o)
+                        o2['status'] = 'failed'
+                        o2['detail'] = (o.get('detail', '') + ' [solver gave up on the general query; confirmed with the candidate input pinned]').strip()
+                        failed.append((cname, o2))
+                        upgraded = True
+                        break
+        if not upgraded:
+            still_unknown.append((cname, o))
+    unknown = still_unknown
     # floor: a contract that silently lost its obligations is a checker error, not a pass
     floor_path = os.path.join(ROOT, 'obligation_floor.json')
     floors = json.load(open(floor_path)) if os.path.exists(floor_path) else {}
